@@ -21,6 +21,7 @@ BIN = os.path.join(BUILD_DIR, "target", "release", "breadlog")
 SHIM_SRC = os.path.join(VERIF, "sim", "shim", "simshim.c")
 SHIM = os.path.join(BUILD_DIR, "simshim.so")
 RUN_TIMEOUT = 20.0
+TIMEOUT_SCALE = 1.0     # raised while a suspected hang is re-executed (engine: confirm step)
 
 MUTATING_KINDS = {"WRITE", "RENAME", "UNLINK", "MKDIR", "RMDIR", "LINK", "SYMLINK", "TRUNCATE", "CHMOD", "COPY"}
 O_CREAT = 0o100
@@ -215,6 +216,12 @@ def materialise(world, root):
             os.makedirs(os.path.dirname(full), exist_ok=True)
             os.symlink(e["target"], full)
     for p, e in items:
+        if e["t"] == "h":
+            # a hard link to a file of the world (read back as an ordinary file)
+            full = os.path.join(root, p)
+            os.makedirs(os.path.dirname(full), exist_ok=True)
+            os.link(os.path.join(root, e["to"]), full)
+    for p, e in items:
         if e["t"] == "d" and "mode" in e:
             os.chmod(os.path.join(root, p), e["mode"])
     for p, e in items:
@@ -313,6 +320,16 @@ def plan_text(plan):
             parts.append("signo=%d" % f["signo"])
         lines.append(" ".join(parts))
     return "\n".join(lines) + "\n"
+
+
+def _proc_cpu(pid):
+    """CPU seconds (user + system, all threads) the process has consumed so far; None if it cannot be read."""
+    try:
+        with open("/proc/%d/stat" % pid) as f:
+            rest = f.read().rsplit(")", 1)[1].split()
+        return (int(rest[11]) + int(rest[12])) / os.sysconf("SC_CLK_TCK")
+    except (OSError, IndexError, ValueError):
+        return None
 
 
 # --------------------------------------------------------------------------------------------
@@ -559,17 +576,36 @@ def run_breadlog(root, check=False, plan=None, knobs=None, binary=None):
                              stderr=subprocess.PIPE, preexec_fn=pre)
     except OSError as e:
         raise HarnessError("cannot start breadlog: %s" % e)
-    try:
-        out, err = p.communicate(timeout=knobs.get("timeout", RUN_TIMEOUT))
+    # Time limit.  A run is given RUN_TIMEOUT seconds; when they are over it is "hung" if it is not consuming CPU time
+    # (blocked: deadlock, lost wake-up) or has consumed RUN_TIMEOUT seconds of CPU (endless loop).  A run that is still
+    # computing and has not had that much CPU yet is merely being starved by a busy machine and is left running (hard cap
+    # 9 x RUN_TIMEOUT of wall time).
+    limit = knobs.get("timeout", RUN_TIMEOUT) * TIMEOUT_SCALE
+    timed_out = False
+    out = err = b""
+    last_cpu = None
+    first = True
+    while True:
+        try:
+            out, err = p.communicate(timeout=limit if first else 3.0)
+            break
+        except subprocess.TimeoutExpired:
+            first = False
+            cpu = _proc_cpu(p.pid)
+            if cpu is None or cpu >= limit or time.monotonic() - t0 > 9 * limit or (last_cpu is not None and cpu - last_cpu < 0.05):
+                timed_out = True
+                break
+            last_cpu = cpu
+    if timed_out:
+        p.kill()
+        out, err = p.communicate()
+        res.mode, res.status = "timeout", None
+    else:
         rc = p.returncode
         if rc >= 0:
             res.mode, res.status = "exited", rc
         else:
             res.mode, res.status = "signaled", -rc
-    except subprocess.TimeoutExpired:
-        p.kill()
-        out, err = p.communicate()
-        res.mode, res.status = "timeout", None
     res.wall = time.monotonic() - t0
     res.stdout = out.decode("utf-8", "replace")
     res.stderr = err.decode("utf-8", "replace")
